@@ -1,20 +1,19 @@
-use plonky2::field::goldilocks_field::GoldilocksField as F;
-use plonky2::plonk::config::PoseidonGoldilocksConfig;
-use pv::circ;
-type C = PoseidonGoldilocksConfig;
+use pv::props::c09::{stark_prove, stark_verify};
+use pv::stk::{self, GenStark, Generated};
+use starky::verif_hooks::{set_knobs, StarkProverKnobs};
 fn main() {
-    let seed = 1u64;
-    let mut rng = pv::mon::case_rng(seed, 19_001, 1);
-    let bset = pv::gen::boundary_set();
-    for lookups in [false, true] {
-    let opts = circ::GenOpts { n_ops: 60, lookups, hashing: true, extension: true, max_table_len: 70, only_base2: true };
-    let (p, inp) = circ::gen_program(&mut rng, &bset, &opts);
-    let mut cfg = circ::fast_config();
-    cfg.zero_knowledge = false;
-    let built = circ::build::<C>(&p, &cfg);
-    let p1 = built.data.prove(circ::witness_for(&built, &inp)).unwrap();
-    let p2 = built.data.prove(circ::witness_for(&built, &inp)).unwrap();
-    println!("lookups={lookups} wires_cap eq {} zs eq {} quotient eq {} openings eq {} final eq {} pow {} {}", p1.proof.wires_cap == p2.proof.wires_cap, p1.proof.plonk_zs_partial_products_cap == p2.proof.plonk_zs_partial_products_cap, p1.proof.quotient_polys_cap == p2.proof.quotient_polys_cap, p1.proof.openings == p2.proof.openings, p1.proof.opening_proof.final_poly == p2.proof.opening_proof.final_poly, p1.proof.opening_proof.pow_witness, p2.proof.opening_proof.pow_witness);
-    let _ = F::default();
+    for seed in 0..6u64 {
+        let mut rng = pv::mon::case_rng(seed, 1, 1);
+        let log_n = 4;
+        let Generated { spec, mut trace, pis } = stk::gen_family(&mut rng, 4, 2, 3, log_n);
+        let config = stk::gen_stark_config(&mut rng, 3, true);
+        let stark = GenStark::<4, 2>::new(spec.clone());
+        // garbage trace
+        for c in trace.iter_mut() { for x in c.iter_mut() { *x = (*x).wrapping_mul(3).wrapping_add(seed + 17) % 0xFFFF_FFFF_0000_0001; } }
+        let bad = spec.check_trace(&trace, &pis);
+        set_knobs(StarkProverKnobs { skip_constraint_check: true, forge_quotient_after_zeta: true, ..Default::default() });
+        let proof = match stark_prove(&stark, &config, &trace, &pis) { Ok(p) => p, Err(e) => { println!("prove err {e}"); continue; } };
+        set_knobs(StarkProverKnobs::default());
+        println!("seed {seed}: trace violates {} constraint instances; quotient cap present: {}; verify_stark_proof -> {:?}", bad.len(), proof.proof.quotient_polys_cap.is_some(), stark_verify(&stark, &config, proof));
     }
 }
